@@ -31,6 +31,7 @@ from pyvc import values as V
 from pyvc.api import *
 from pyvc.api import PROTOCOLS
 from pyvc.protocol import Protocol
+from pyvc.seqs import DRef
 from pyvc.values import cur, mk_bool
 
 from urwid import signals as _sig
@@ -141,3 +142,63 @@ class button_init_wiring:
 
     def ensures(old, s, a, result):
         yield from _wiring(s, "click", a.on_press, a.user_data)
+
+
+# ------------------------------------------------------------------------------------------------ CheckBox / RadioButton
+_STATES = (True, False, "mixed")
+
+
+def _checkbox_class_attr(ip, st, obj, name):
+    """CheckBox.states (class-level dict state -> SelectableIcon made at class-definition time) / reserve_columns"""
+    if name == "states":
+        d = st.ghost.get("states")
+        if d is None:
+            d = st.ghost["states"] = DRef({k: V.SOpaque("BuiltWidget", z3.Const(f"{obj.cls.__name__}.states[{k!r}]", S.opaque_sort("BuiltWidget")), {"cls": _wimp.SelectableIcon})
+                                             for k in type(obj.cls.states)(obj.cls.states)})
+        return d
+    if name == "reserve_columns":
+        return obj.cls.reserve_columns
+    return NotImplemented
+
+
+CHECKBOX = Obj(_wimp.CheckBox, dict())
+
+
+@contract(WP + "CheckBox.__init__", property="C14", alias="signal-wiring", replayable=False, inline=(WW + "WidgetWrap.__init__",))
+class checkbox_init_wiring:
+    self_shape = CHECKBOX
+    params = dict(label=Opaque("Markup"), state=Enum(True, False, "mixed", "first True"), has_mixed=Bool, on_state_change=Opt(CALLBACK), user_data=Opt(USER_DATA),
+                  checked_symbol=Enum(None, "", "*"))
+    raises = (ValueError,)
+    setup = staticmethod(_fresh_wiring)
+    call_real = staticmethod(_wiring_real)
+    modifies = ("_label", "has_mixed", "_state", "_wrapped_widget")
+    missing_field = staticmethod(_checkbox_class_attr)
+
+    def ensures(old, s, a, result):
+        yield from _wiring(s, "change", a.on_state_change, a.user_data)
+
+    def on_raise(old, s, a, exc):
+        yield "only-an-unknown-state-is-refused", a.state == "first True"
+        yield "a-refused-construction-connects-nothing", not cur().ghost.get("wiring", [])
+
+
+RADIO = Obj(_wimp.RadioButton, dict())
+
+
+@contract(WP + "RadioButton.__init__", property="C14", alias="signal-wiring", replayable=False,
+          inline=(WP + "CheckBox.__init__", WW + "WidgetWrap.__init__"))
+class radiobutton_init_wiring:
+    """RadioButton.__init__ hands callback and user_data to CheckBox.__init__ (inlined here: the clauses are about
+    the connect call that finally happens)."""
+
+    self_shape = RADIO
+    params = dict(group=ListOf(Opaque("RadioPeer")), label=Opaque("Markup"), state=Enum(True, False, "first True"), on_state_change=Opt(CALLBACK), user_data=Opt(USER_DATA))
+    raises = ()
+    setup = staticmethod(_fresh_wiring)
+    call_real = staticmethod(_wiring_real)
+    modifies = ("group", "_label", "has_mixed", "_state", "_wrapped_widget")
+    missing_field = staticmethod(_checkbox_class_attr)
+
+    def ensures(old, s, a, result):
+        yield from _wiring(s, "change", a.on_state_change, a.user_data)
